@@ -249,6 +249,20 @@ func (w *verifLW) outboxEntry(class string, k int) any {
 		a := w.activity(act, "A", "Announce", w.owner, w.object(k))
 		w.publish(a)
 		return a
+	case "legit_announce_wrapped":
+		/* the owner boosts a Create of another host (as Lemmy communities do) that wraps a note of the owner's host: what A
+		   embeds is A's word; what B serves under the Create's id embeds its own version of A's note - B's word about A */
+		noteID := w.A.URL(fmt.Sprintf("/s%d/wrapped%d", w.sid, k))
+		mine := w.note(noteID, "A", w.owner, nil)
+		w.publish(mine)
+		bob := w.actor(w.B.URL(fmt.Sprintf("/s%d/bq", w.sid)), "B")
+		w.publish(bob)
+		createID := w.B.URL(fmt.Sprintf("/s%d/create%d", w.sid, k))
+		theirs := w.note(noteID, "B", w.owner, nil)
+		w.publish(w.activity(createID, "B", "Create", bob["id"], theirs))
+		a := w.activity(act, "A", "Announce", w.owner, w.activity(createID, "A", "Create", bob["id"], mine))
+		w.publish(a)
+		return a
 	case "other_actor":
 		a := w.activity(act, "A", "Create", w.other, w.object(k))
 		w.publish(a)
